@@ -7,6 +7,7 @@ import (
 	"fmt"
 	"sort"
 	"strings"
+	"sync"
 	"time"
 
 	"verif/fw"
@@ -363,12 +364,18 @@ func monitorCase(c *fw.Ctx, r *fw.Rand) {
 			members[gen.Peer(i)] = true
 		}
 	}
+	var pmu sync.Mutex
 	if members != nil {
-		var list []peer.ID
-		for p := range members {
-			list = append(list, p)
+		// the peerset is read at every call: it changes during the history
+		pf = func(context.Context) ([]peer.ID, error) {
+			pmu.Lock()
+			defer pmu.Unlock()
+			var list []peer.ID
+			for p := range members {
+				list = append(list, p)
+			}
+			return list, nil
 		}
-		pf = func(context.Context) ([]peer.ID, error) { return list, nil }
 	}
 	mon, err := pubsubmon.New(ctx, cfg, ps, pf)
 	if err != nil {
@@ -382,6 +389,18 @@ func monitorCase(c *fw.Ctx, r *fw.Rand) {
 	model := map[mkey]*mstate{}
 	steps := r.Range(5, 40)
 	for s := 0; s < steps; s++ {
+		if members != nil && r.Chance(1, 4) {
+			// a member leaves or a peer joins between two reads
+			p := gen.Peer(r.Intn(npeers))
+			pmu.Lock()
+			if members[p] {
+				delete(members, p)
+			} else {
+				members[p] = true
+			}
+			pmu.Unlock()
+			peersetKind = "changing"
+		}
 		m := genMetric(r, s, false)
 		mon.LogMetric(ctx, m)
 		k := mkey{m.Name, m.Peer}
